@@ -155,6 +155,7 @@ type Hist struct {
 	Absent map[types.TmAddress]int // remaining absence run
 	Panics []string
 	Ops    int
+	DebugHook func(*GenTx)
 }
 
 var burnAddr = types.HexToAddress("Mxffffffffffffffffffffffffffffffffffffffff")
@@ -231,10 +232,15 @@ func (h *Hist) sendFull(op string) {
 	h.S.Op(lines...)
 }
 
-// liveProjection reads balances, nonces and coins from the live state for the known universe.
+// liveProjection reads the live state: the node's own Export on the live CheckState (tree key universe,
+// live values) supplemented by direct getters for balances, nonces and coins of the known universe
+// (entities created in the current block are not yet in the tree).
 func (h *Hist) liveProjection() Dump {
 	cs := h.N.App.CurrentState()
 	d := Dump{}
+	// NOTE: CheckState.Export() must not be called on the live state: Candidates.Export reloads
+	// stakes from the committed tree and clobbers uncommitted changes (it is only meant for a state
+	// opened at a committed height). Only read-only getters that the API uses are called here.
 	n := cs.App().GetCoinsCount()
 	var ids []types.CoinID
 	for i := uint32(1); i <= n; i++ {
@@ -324,7 +330,7 @@ func tagsOf(ev []abci.Event) map[string]string {
 // txLine renders a transaction for the model: decoded fields as the real decoder saw them.
 func txLine(g *GenTx, code uint32, tags map[string]string) string {
 	var sb strings.Builder
-	fmt.Fprintf(&sb, "D code=%d type=%d sender=%s nonce=%d gascoin=%d note=%s raw=%x", code, g.Type, hexs(g.Sender[:]), g.Nonce, g.GasCoin, g.Note, g.Raw)
+	fmt.Fprintf(&sb, "D code=%d note=%s %s raw=%x", code, g.Note, decodedFields(g.Raw), g.Raw)
 	keys := make([]string, 0, len(tags))
 	for k := range tags {
 		keys = append(keys, k)
@@ -411,6 +417,9 @@ func (h *Hist) Block() bool {
 				h.Panics = append(h.Panics, fmt.Sprintf("CheckTx h=%d: %s raw=%x", height, cp, g.Raw))
 				return false
 			}
+		}
+		if h.DebugHook != nil {
+			h.DebugHook(g)
 		}
 		r, dp := n.Deliver(g.Raw)
 		h.Ops++
